@@ -459,10 +459,9 @@ impl SessionManager {
         self.check_invariants();
     }
 
-    /// Wipe every per-(cluster, source-IP) accounting bucket. Called by
-    /// the runtime `SetMaxConnectionsPerIp(0)` path so disabling the
-    /// feature does not leave dead bookkeeping behind that a future
-    /// re-enable would consult.
+    /// Wipe every per-(cluster, source-IP) accounting bucket. Only sound
+    /// when no session holds a slot: the sessions that are still open
+    /// would no longer be counted against their address.
     pub fn clear_cluster_ip_tracking(&mut self) {
         self.cluster_ip_tracks.clear();
         self.connections_per_cluster_ip.clear();
@@ -1928,13 +1927,13 @@ impl Server {
                 let mut sessions = self.sessions.borrow_mut();
                 let previous = sessions.max_connections_per_ip;
                 sessions.max_connections_per_ip = *limit;
-                // Disabling the feature on the fly should not leave
-                // stale `(cluster, ip)` entries behind: drain the
-                // bookkeeping so a re-enable starts from a clean slate
-                // and `cluster_ip_at_limit` does not consult dead state.
-                if *limit == 0 {
-                    sessions.clear_cluster_ip_tracking();
-                }
+                // The `(cluster, ip)` accounting is kept whatever the
+                // value: connections are tracked while the global limit
+                // is 0 too, every entry is reaped when its session
+                // closes, and a cluster's own limit stays in force while
+                // the global one is disabled. Wiping it here let an
+                // address that already holds connections open a full
+                // quota more once a limit applies again.
                 info!(
                     "{} updated global max_connections_per_ip from {} to {}",
                     message.id, previous, limit
